@@ -83,7 +83,13 @@ Examples:
 		// Set up the ELPS environment.
 		env := lisp.NewEnv(nil)
 		env.Runtime.Reader = parser.NewReader()
-		env.Runtime.Library = &lisp.FSLibrary{FS: os.DirFS(rootDir)}
+		root, err := os.OpenRoot(rootDir)
+		if err != nil {
+			fmt.Fprintf(os.Stderr, "cannot open root directory: %v\n", err)
+			os.Exit(1)
+		}
+		defer root.Close() //nolint:errcheck // read-only handle
+		env.Runtime.Library = &lisp.FSLibrary{FS: root.FS()}
 		env.Runtime.Debugger = dbg
 
 		rc := lisp.InitializeUserEnv(env)
